@@ -25,6 +25,17 @@ PROPS = {
         "quick": {"shards": 16, "cases": 60000, "require": {"evaluations": 500000, "fn": 300000, "agg": 50000, "tree_evaluations": 100000}},
         "thorough": {"shards": 16, "cases": 2500000, "watchdog_s": 7200, "require": {"evaluations": 20000000}},
     },
+    "C10": {
+        "technique": "runtime monitoring: generated predicates evaluated by an independent three-valued evaluator on member rows; satisfying rows must be members of DataType::filter's result / of the join's output field types",
+        "level_text": "Exploration: ~30k predicates (comparisons col/literal and col/col in both orders, int vs float, IN lists, AND/OR/NOT nests, IS NULL, boolean columns and literals, opaque sub-terms) x 8 rows each on struct types with optional columns, literals placed at the boundaries of the column ranges; plus joins of the four kinds whose ON clause is such a predicate, observed through the join schema. A satisfying row outside the narrowed type is reported with the witness.",
+        "level_note": "Trusted: the harness's three-valued predicate evaluator and membership oracle. Comparisons mixing integers and floats beyond 2^53 are left undecided.",
+        "rule": ("struct of 5 columns (2 int, float, text, bool; each optional with prob 1/4; ranges near the literals 3/4 of the time, hostile otherwise); "
+                 "predicate depth <= 3; rows drawn inside the type (endpoints favoured). evaluation = one (type, predicate, row) triple; "
+                 "distinct non-trivial = distinct triples whose row satisfies the predicate (the only ones the property constrains)."),
+        "assumptions": COMMON_ASSUME + ["SQL three-valued logic decides which rows satisfy a predicate"],
+        "quick": {"shards": 16, "cases": 40000, "require": {"evaluations": 1000000, "rows_satisfying": 200000, "pairs_matching": 50000, "narrowed_types": 50000}},
+        "thorough": {"shards": 16, "cases": 1500000, "watchdog_s": 7200, "require": {"evaluations": 30000000}},
+    },
     "C11": {
         "technique": "runtime monitoring: law-checking oracle with an independent membership model over generated type pairs/values, and a naive interval-set model checked after every operation of generated histories",
         "level_text": "Exploration: millions of (A, B, v) law instances and ~60k interval-set histories per quick run are judged by an independent membership oracle / naive model; a violation comes with the witness types and value. Sound for what is observed; says nothing about pairs the generators do not produce.",
